@@ -211,6 +211,26 @@ def write_replay(prop: str, name: str, obj: dict) -> str:
     return path
 
 
+def source_fingerprints(prop: str) -> dict:
+    """sha256 of the /repo files the property is anchored in (properties.jsonl), so that an evidence file
+    says which working tree it was computed against"""
+    out = {}
+    try:
+        for line in open(os.path.join(VERIF, "properties.jsonl")):
+            d = json.loads(line)
+            if d["id"] == prop:
+                for f in d["anchors"]["files"]:
+                    path = os.path.join("/repo", f)
+                    if os.path.exists(path):
+                        out[f] = hashlib.sha256(open(path, "rb").read()).hexdigest()[:16]
+        rc, head = sh(["git", "-C", "/repo", "rev-parse", "--short", "HEAD"])
+        rc2, dirty = sh(["git", "-C", "/repo", "status", "--porcelain", "--", "tucan"])
+        out["_repo_head"] = head.strip() + (" +uncommitted changes" if dirty.strip() else "")
+    except Exception as e:  # pragma: no cover
+        out["_error"] = repr(e)
+    return out
+
+
 def write_evidence(run: Run, level: str, extra_cov: dict, violations: int):
     lean = run.lean or {}
     theorems = lean.get("theorems", [])
@@ -241,6 +261,7 @@ def write_evidence(run: Run, level: str, extra_cov: dict, violations: int):
         },
         "distribution": {k: v for k, v in sorted(run.stats.items())},
         "tables": lean.get("tables"),
+        "source_fingerprints": source_fingerprints(run.prop),
         "forbidden_constructs": lean.get("forbidden", []),
     }
     cov.update(extra_cov)
